@@ -26,7 +26,7 @@ from vlib import tlc as tlcmod, util
 from vlib.ctx import Ctx, validate_trace as _validate_trace
 
 HARNESS = os.path.join(util.VERIF, "harness", "ebpf")
-OUT = os.path.join(util.BUILD, "ebpf")
+OUT = os.path.join(util.RUNDIR, "ebpf")
 AF_INET = 2
 TCP = 6
 
@@ -230,9 +230,13 @@ class Machine:
         self.audit_raw = raw
         local = {}
         for k, v in reply["maps"]["local"]:
-            key = struct.unpack("<Q", bytes.fromhex(k))[0]
             f = struct.unpack("<6I", bytes.fromhex(v)) if len(v) == 48 else ()
-            local[(key >> 32, key & 0xFFFFFFFF)] = f
+            if len(k) == 16:
+                key = struct.unpack("<Q", bytes.fromhex(k))[0]
+                local[(key >> 32, key & 0xFFFFFFFF)] = f
+            else:
+                # the hand-over map is kernel-internal: another key layout is a drift from Ebpf.tla, never a verdict
+                local[("raw", k)] = f
         return achg, agone, local
 
     def lookup(self, sport):
